@@ -30,6 +30,7 @@ def run(repo, chk):
     rule_b(repo, chk)
     rule_c_d(repo, chk)
     rule_cmds(repo, chk)
+    rule_parse(repo, chk)
 
 
 def rule_a(repo, chk):
@@ -194,6 +195,34 @@ def rule_cmds(repo, chk):
     ws = [c for c, _r, e in pat.fire_calls(p.node) if pat.event_ctor_name(e) == 'write']
     ok = bool(ws) and all(src(c.args[0].args[0]) == f'bytes({p.params[2]})' for c in ws)
     chk.ob('e', p.ref, 'the protocol writes the serialised message (bytes(message)) and nothing else', ok, loc(p, p.node), discr='writes-serialised')
+
+
+def rule_parse(repo, chk):
+    """parsemsg is the inverse of the serialiser for what the serialiser can emit: the trailing argument (after ' :') is the rest of the
+    line verbatim; nothing but the line terminator may be cut off."""
+    chk.rule('C18.f', 'parsemsg takes the trailing argument verbatim (split at the first " :"), strips nothing but a line terminator, and splits the '
+                      'other arguments at spaces')
+    f = repo.func('circuits/protocols/irc/utils.py', 'parsemsg')
+    chk.touch(f)
+    sv = f.params[0]
+    strips = []
+    for c in calls_in(f.node):
+        if isinstance(c.func, ast.Attribute) and c.func.attr in ('strip', 'rstrip', 'lstrip'):
+            recv = src(c.func.value)
+            if recv == sv or recv == 'trailing' or recv.startswith(sv + '.'):
+                only_eol = c.func.attr == 'rstrip' and len(c.args) == 1 and isinstance(c.args[0], ast.Constant) and set(c.args[0].value) <= set('\r\n')
+                if not only_eol:
+                    strips.append(c)
+    chk.ob('f', f.ref, 'the line and its trailing argument are not stripped of anything but a line terminator', not strips, loc(f, (strips or [f.node])[0]),
+           detail='; '.join(src(c) for c in strips), discr='no-strip')
+    sp = [n for n in walk_no_defs(f.node) if isinstance(n, ast.Assign) and isinstance(n.value, ast.Call) and src(n.value).replace('"', "'") == f"{sv}.split(' :', 1)"]
+    ok = bool(sp) and isinstance(sp[0].targets[0], ast.Tuple) and src(sp[0].targets[0].elts[1]) == 'trailing'
+    app = any(isinstance(c.func, ast.Attribute) and c.func.attr == 'append' and [src(a) for a in c.args] == ['trailing'] for c in calls_in(f.node))
+    chk.ob('f', f.ref, 'the trailing argument is everything after the first " :" and becomes the last argument as it is', ok and app, loc(f, f.node), discr='trailing-verbatim')
+    m = repo.func(IRC_MESSAGE, 'Message.from_string')
+    chk.touch(m)
+    ok = any(call_name(c) == 'parsemsg' and [src(a) for a in c.args] == [m.params[0]] for c in calls_in(m.node))
+    chk.ob('f', m.ref, 'Message.from_string parses exactly the given line', ok, loc(m, m.node), discr='from-string', nontrivial=False)
 
 
 def _fields_of(func, e):
